@@ -315,8 +315,10 @@ func c10Conservation(c *lab.Ctx, e *engine, clusters []string, when string, peer
 				return n
 			}
 			open, counted := sockets(), count(books)
-			for try := 0; try < 5 && counted != open; try++ {
-				// sockets being closed right now: re-read both sides
+			for try := 0; try < 50 && counted != open; try++ {
+				// sockets being closed or connected right now (the multiplexed pools connect in the background, and on a loaded
+				// machine a connection can take seconds to get from the kernel's table into the books or out of them): re-read
+				// both sides for up to 10 s; a connection that is really lost to the books stays lost
 				time.Sleep(200 * time.Millisecond)
 				open, counted = sockets(), count(activeBooks())
 			}
